@@ -1,4 +1,199 @@
-import Knee.Model.Detectors
+import Knee.Props.C03A
+import Knee.Props.C03B
+import Knee.Lemmas.ElbowC
+/-!
+# C03 — every single-knee detector finds the corner of an exact two-slope elbow
+
+Models: the Layer-N exact criteria over ℚ (`Knee/Model/Elbow.lean`: `cfdQ`, `csdQ`, `curvCritSq`,
+`mengerAt`, `lmErrRss`; `Knee/Model/Isodata.lean`: `isodataQ`, `dfdtDiffsQ`;
+`Knee/Model/KneedleQ.lean`: `kneedleDiffQ`) plugged into the Layer-S index selection of
+`Knee/Model/Detectors.lean` (`curvKnee`, `mengerKnee`, `lmethodKnee`, `dfdtKnee`, `kneedleKnee`).
+Everything is exact rational arithmetic: no tolerance, no oracle.
+
+An elbow `IsElbow x y n c s1 s2` is a curve of `n` points with strictly increasing abscissae made
+of exactly two straight arms of slopes `s1 ≠ s2` meeting at index `c`, each arm having at least
+three segments (`3 ≤ c`, `c + 3 < n`).  The statements are therefore *more general* than the
+property ("unit-spaced x, slopes a and b"): any strictly increasing `x`, any pair of distinct
+rational slopes, any offset, any arm lengths ≥ 3.
+
+* `elbow_curvature`     — curvature detector
+* `elbow_menger`        — Menger-curvature detector
+* `elbow_lmethod_scan`, `elbow_lmethod_none` — L-method (one scan; the whole loop, no refinement)
+* `elbow_dfdt`          — DFDT on the gradient array of the curve (ISODATA threshold)
+* `elbow_kneedle`       — Kneedle without smoothing, on monotone elbows (all four
+                          direction × concavity cases; `elbow_kneedle_diff_*` give the difference curve)
+* `elbow_exists`        — the hypotheses are satisfiable for every `n`, `c`, `s1 ≠ s2`
+
+Parts: `Props/C03A.lean` (curvature, Menger, L-method), `Props/C03B.lean` (ISODATA / DFDT on the
+gradient array `elbowG`), `Lemmas/ElbowC.lean` (the gradient array of the curve is an `elbowG`;
+Kneedle: chord, vote, normalisation and unimodality of the difference curve).
+-/
 namespace Knee
-theorem stub_C03 : True := trivial
+
+variable {x y : Nat → Rat} {n c : Nat} {s1 s2 : Rat}
+
+/-! ## 1. The detectors return the corner -/
+
+/-- **C03 (curvature).** `np.argmax(curvature[1:-1]) + 1` of an exact elbow is the corner: the
+criterion `f''² / (1 + f'²)³` vanishes off the corner and is positive at it. -/
+theorem elbow_curvature (h : IsElbow x y n c s1 s2) : curvKneeQ x y n = c := curv_elbow h
+
+/-- **C03 (Menger).** `np.argmax([0] + menger + [0])` of an exact elbow is the corner. -/
+theorem elbow_menger (h : IsElbow x y n c s1 s2) : mengerKneeQ x y n = c := menger_elbow h
+
+/-- **C03 (L-method, one scan).** The first minimum of the end-point-fit RSS error over the splits
+`2 … n-3` is the corner (error exactly `0` there, `> 0` elsewhere). -/
+theorem elbow_lmethod_scan (h : IsElbow x y n c s1 s2) : lmethodScan (lmErrsRss x y n) = c :=
+  lmethod_scan_elbow h
+
+/-- **C03 (L-method, no refinement).** `lmethod.knee(…, Refinement.none)` returns the corner, for
+every `limit`. -/
+theorem elbow_lmethod_none (h : IsElbow x y n c s1 s2) (limit : Nat) :
+    lmethodKneeQ x y .none n limit = some c := lmethod_elbow_none h limit
+
+/-- the gradient array of an exact elbow: `c` copies of `s1`, the corner gradient, `n - 1 - c`
+copies of `s2` -/
+theorem elbow_gradient (h : IsElbow x y n c s1 s2) :
+    (List.range n).map (cfdQ x y n) = elbowG c (cfdQ x y n c) (n - 1 - c) s1 s2 :=
+  gradient_elbow h
+
+/-- the corner gradient (three-point central derivative) is the convex combination of the two
+slopes weighted by the neighbouring spacings … -/
+theorem elbow_corner_gradient (h : IsElbow x y n c s1 s2) :
+    cfdQ x y n c =
+      (s1 * (x (c + 1) - x c) + s2 * (x c - x (c - 1))) / (x (c + 1) - x (c - 1)) :=
+  h.cfd_corner
+
+/-- … hence strictly between the slopes -/
+theorem elbow_corner_gradient_between (h : IsElbow x y n c s1 s2) :
+    min s1 s2 < cfdQ x y n c ∧ cfdQ x y n c < max s1 s2 := cfd_corner_between h
+
+/-- **C03 (DFDT).** `dfdt.knee` on the gradient of an exact elbow (exact ISODATA threshold,
+`eps = 1e-6`, `max_iter = 100`) returns the corner. -/
+theorem elbow_dfdt (h : IsElbow x y n c s1 s2) :
+    dfdtKnee (dfdtDiffsQ ((List.range n).map (cfdQ x y n))) n = c := dfdt_elbow_curve h
+
+/-! ## 2. Kneedle (no smoothing) on monotone elbows
+
+`kneedle.knee` needs a monotone curve to make sense (the difference curve is built from the
+min-max normalised coordinates and the direction of the chord), so the elbow is taken
+non-decreasing (`0 ≤ s1, s2`) or non-increasing (`s1, s2 ≤ 0`); a flat arm is allowed. -/
+
+/-- a difference curve that strictly increases up to `c` and strictly decreases after it has `c`
+as its only strict peak, which `highest_peak` returns -/
+theorem kneedle_unimodal (d : List Rat) (c : Nat) (hc1 : 1 ≤ c) (hc2 : c + 1 < d.length)
+    (hup : ∀ i, i < c → d[i]?.getD 0 < d[i + 1]?.getD 0)
+    (hdown : ∀ i, c ≤ i → i + 1 < d.length → d[i + 1]?.getD 0 < d[i]?.getD 0) :
+    kneedleKnee d = some c := unimodal_peak d c hc1 hc2 hup hdown
+
+/-- `linear_fit` of an elbow is its chord; the chord's slope lies strictly between the slopes -/
+theorem elbow_chord (h : IsElbow x y n c s1 s2) :
+    fitQ ((List.range n).map x) ((List.range n).map y) =
+        (y 0 - chordM x y n * x 0, chordM x y n) ∧
+      min s1 s2 < chordM x y n ∧ chordM x y n < max s1 s2 :=
+  ⟨h.fit, h.chordM_between⟩
+
+/-- the concavity vote `Σ (y − ŷ)` is never `0` on an elbow: positive iff `s2 < s1` (the curve lies
+above its chord), negative iff `s1 < s2` -/
+theorem elbow_vote (h : IsElbow x y n c s1 s2) :
+    (s2 < s1 → 0 < ((List.range n).map fun i =>
+        y i - (x i * chordM x y n + (y 0 - chordM x y n * x 0))).sum) ∧
+      (s1 < s2 → ((List.range n).map fun i =>
+        y i - (x i * chordM x y n + (y 0 - chordM x y n * x 0))).sum < 0) :=
+  ⟨h.vote_pos, h.vote_neg⟩
+
+/-- **C03 (Kneedle).** On a monotone exact elbow `kneedle.knee` without smoothing returns the
+corner: the difference curve is affine in `(x, y)` on each arm, strictly increasing along the first
+arm and strictly decreasing along the second, so the corner is its only strict peak.  The four
+cases are `kneedle_elbow_increasing_concave / _increasing_convex / _decreasing_concave /
+_decreasing_convex` in `Lemmas/ElbowC.lean`. -/
+theorem elbow_kneedle (h : IsElbow x y n c s1 s2)
+    (hmono : (0 ≤ s1 ∧ 0 ≤ s2 ∧ (0 < s1 ∨ 0 < s2)) ∨ (s1 ≤ 0 ∧ s2 ≤ 0 ∧ (s1 < 0 ∨ s2 < 0))) :
+    kneedleKneeQ ((List.range n).map x) ((List.range n).map y) = some c := kneedle_elbow h hmono
+
+/-- the positivity clause of the monotonicity hypothesis is implied by `s1 ≠ s2` -/
+theorem elbow_kneedle' (h : IsElbow x y n c s1 s2)
+    (hmono : (0 ≤ s1 ∧ 0 ≤ s2) ∨ (s1 ≤ 0 ∧ s2 ≤ 0)) :
+    kneedleKneeQ ((List.range n).map x) ((List.range n).map y) = some c := by
+  apply kneedle_elbow h
+  have hs := h.slopes
+  rcases hmono with ⟨h1, h2⟩ | ⟨h1, h2⟩
+  · refine Or.inl ⟨h1, h2, ?_⟩
+    by_contra hc
+    rw [not_or, not_lt, not_lt] at hc
+    exact hs (by rw [le_antisymm hc.1 h1, le_antisymm hc.2 h2])
+  · refine Or.inr ⟨h1, h2, ?_⟩
+    by_contra hc
+    rw [not_or, not_lt, not_lt] at hc
+    exact hs (by rw [le_antisymm h1 hc.1, le_antisymm h2 hc.2])
+
+/-! ## 3. Non-vacuity -/
+
+/-- **C03 (non-vacuity, general).** For every corner index `c ≥ 3`, every length `n > c + 3` and
+every pair of distinct slopes, the unit-spaced two-slope curve is an elbow. -/
+theorem elbow_exists (n c : Nat) (s1 s2 : Rat) (hc : 3 ≤ c) (hn : c + 3 < n) (hs : s1 ≠ s2) :
+    IsElbow (fun i => (i : Rat))
+      (fun i => if i ≤ c then s1 * (i : Rat) else s1 * (c : Rat) + s2 * ((i : Rat) - (c : Rat)))
+      n c s1 s2 where
+  xinc := by
+    intro i j hij _
+    exact_mod_cast hij
+  left := by
+    intro i hi
+    simp only [if_pos hi, Nat.zero_le, if_true]
+    push_cast
+    ring
+  right := by
+    intro i hi _
+    simp only [Nat.le_refl, if_true]
+    by_cases hic : i ≤ c
+    · have e : i = c := by omega
+      subst e
+      simp
+    · simp only [if_neg hic]
+  slopes := hs
+  arm1 := hc
+  arm2 := hn
+
+/-- the sample elbow of `Props/C03A.lean` (9 points, corner 4, slopes −2 and −1/8) -/
+example : IsElbow (fun i => (i : Rat)) sampleElbowY 9 4 (-2) (-1 / 8) := sampleElbow_isElbow
+
+example : curvKneeQ (fun i => (i : Rat)) sampleElbowY 9 = 4 := by decide +kernel
+example : mengerKneeQ (fun i => (i : Rat)) sampleElbowY 9 = 4 := by decide +kernel
+example : lmethodKneeQ (fun i => (i : Rat)) sampleElbowY .none 9 4 = some 4 := by decide +kernel
+example : (List.range 9).map (cfdQ (fun i => (i : Rat)) sampleElbowY 9)
+    = [-2, -2, -2, -2, -17 / 16, -1 / 8, -1 / 8, -1 / 8, -1 / 8] := by decide +kernel
+example : dfdtKnee (dfdtDiffsQ ((List.range 9).map (cfdQ (fun i => (i : Rat)) sampleElbowY 9))) 9
+    = 4 := by decide +kernel
+example : kneedleDiffQ ((List.range 9).map fun i : Nat => (i : Rat)) ((List.range 9).map sampleElbowY)
+    = [0, 15 / 136, 15 / 68, 45 / 136, 15 / 34, 45 / 136, 15 / 68, 15 / 136, 0] := by decide +kernel
+example : kneedleKneeQ ((List.range 9).map fun i : Nat => (i : Rat)) ((List.range 9).map sampleElbowY)
+    = some 4 := by decide +kernel
+/-- the theorems agree with the computation -/
+example : dfdtKnee (dfdtDiffsQ ((List.range 9).map (cfdQ (fun i => (i : Rat)) sampleElbowY 9))) 9
+    = 4 := elbow_dfdt sampleElbow_isElbow
+example : kneedleKneeQ ((List.range 9).map fun i : Nat => (i : Rat)) ((List.range 9).map sampleElbowY)
+    = some 4 := elbow_kneedle sampleElbow_isElbow (Or.inr (by norm_num))
+
+/-- the generic unit-spaced elbow of `elbow_exists` -/
+def unitElbowY (c : Nat) (s1 s2 : Rat) (i : Nat) : Rat :=
+  if i ≤ c then s1 * (i : Rat) else s1 * (c : Rat) + s2 * ((i : Rat) - (c : Rat))
+
+/-- the other three Kneedle cases, kernel-evaluated: increasing concave-down (`3, 1/2`), increasing
+concave-up with a flat first arm (`0, 2`: exercises `|y_n − x_n|`), decreasing concave-down with a
+flat first arm (`0, −1`) -/
+example : kneedleKneeQ ((List.range 10).map fun i : Nat => (i : Rat))
+    ((List.range 10).map (unitElbowY 5 3 (1 / 2))) = some 5 := by decide +kernel
+example : kneedleKneeQ ((List.range 10).map fun i : Nat => (i : Rat))
+    ((List.range 10).map (unitElbowY 3 0 2)) = some 3 := by decide +kernel
+example : kneedleKneeQ ((List.range 10).map fun i : Nat => (i : Rat))
+    ((List.range 10).map (unitElbowY 6 0 (-1))) = some 6 := by decide +kernel
+/-- … and as instances of the theorems -/
+example : kneedleKneeQ ((List.range 10).map fun i : Nat => (i : Rat))
+    ((List.range 10).map (unitElbowY 3 0 2)) = some 3 :=
+  elbow_kneedle' (elbow_exists 10 3 0 2 (by omega) (by omega) (by norm_num)) (Or.inl (by norm_num))
+example : dfdtKnee (dfdtDiffsQ ((List.range 10).map
+    (cfdQ (fun i : Nat => (i : Rat)) (unitElbowY 5 3 (1 / 2)) 10))) 10 = 5 :=
+  elbow_dfdt (elbow_exists 10 5 3 (1 / 2) (by omega) (by omega) (by norm_num))
+
 end Knee
